@@ -51,7 +51,9 @@ func c04Extra(c *core.Ctx) {
 	t2 := time.Now()
 	c04ReplayF04d(c)
 	t3 := time.Now()
-	c.Note("C04 extra legs: e2e %.2fs, parseip %.2fs, F-04d replay %.2fs", t1.Sub(t0).Seconds(), t2.Sub(t1).Seconds(), t3.Sub(t2).Seconds())
+	c04ParseIPModel(c, true) // c04_parseip.go: T2 of the net.ParseIP model (Ibx/Model/ParseIP.lean) against the real net.ParseIP
+	t4 := time.Now()
+	c.Note("C04 extra legs: e2e %.2fs, parseip %.2fs, F-04d replay %.2fs, parseip model %.2fs", t1.Sub(t0).Seconds(), t2.Sub(t1).Seconds(), t3.Sub(t2).Seconds(), t4.Sub(t3).Seconds())
 	c04ClientLeg(c) // c04_client.go: the Go client as a read interface (real SMTP session -> store -> real router <- real client)
 }
 
